@@ -246,14 +246,14 @@ def dottedFeatures (c : Cfg) (key : Str) (m : Obj) : List String :=
   if !key.contains '.' then []
   else if c.opaqueKeys then
     ["key-dotted-opaque", if hasKey key m then "key-dotted-opaque-literal-found" else
-      (match dottedLookup false (fieldsDot key) m with
+      (match dottedLookup false false [] (fieldsDot key) m with
        | .ok (some _) => "key-dotted-opaque-absent-but-nested-path-exists"
        | _ => "key-dotted-opaque-absent")]
   else
     ["key-dotted-chained", s!"key-dotted-segments-{(fieldsDot key).length}"] ++
     (if (fieldsDot key).length < (splitOnChar '.' key).length then ["key-dotted-empty-segment"] else []) ++
     (if hasKey key m then ["key-dotted-chained-literal-binding-ignored"] else []) ++
-    (match lookupKey c key m with
+    (match lookupKey c false key m with
      | .ok (some _) =>
        -- found in the innermost object, or inherited from an enclosing one
        (match (fieldsDot key).getLast?, (fieldsDot key).head? with
@@ -281,7 +281,7 @@ def inputFeatures (c : Cfg) : Fields → Obj → List String
        match parseTagC c name tv with
        | .ok (key, some o) =>
          dottedFeatures c key m ++
-         match (match lookupKey c key m with | .ok x => x | .error _ => none) with
+         match (match lookupKey c o.inherit key m with | .ok x => x | .error _ => none) with
          | none =>
            (if !o.default.isEmpty then ["in-default-filled"] else [])
            ++ (if Spec.declOptional o m then ["in-absent-optional"] else [])
